@@ -22,6 +22,17 @@ def stack_fn(i, s):
         o.append("    static_assert(std::is_same_v<decltype(got), typename %s::configuration_t>);" % s.cpp_type(idx))
         o.append("    if (!vp::cfg_equal(got, want)) R.viol(\"%s\", \"layer %d (%s) reports a configuration different from the one it was constructed with  [%s]\", \"%s layer%d\"); }" % (
             key, idx, s.layers[idx].kind, name, name, idx))
+    # second configuration assignment: extreme / special values in every blob (bounds beyond the extents of a storage beneath,
+    # reversed boxes, type extremes, signed zeros, infinities, NaN); read-back only, bit for bit, directly and after a rebuild
+    v1 = g.with_cfgvar(s, 1)
+    o.append("  { covfie::field<B> f1 = %s;" % (v1.make_for_expr() if v1.depth() <= 10 else v1.make_expr()))
+    o.append("    covfie::field<B> r1(covfie::make_parameter_pack(vp::rebuild<B>(f1.backend())));")
+    for idx in range(s.depth()):
+        ch = ".backend()" + ".get_backend()" * idx
+        o.append("    { typename %s::configuration_t want = %s; ++R.transitions;" % (s.cpp_type(idx), v1.cfg_expr(idx)))
+        o.append("      if (!vp::cfg_same_bits(f1%s.get_configuration(), want) || !vp::cfg_same_bits(r1%s.get_configuration(), want)) R.viol(\"%s\", \"layer %d (%s) constructed with extreme configuration values reports different ones  [%s]\", \"%s layer%d extreme\"); }" % (
+            ch, ch, key, idx, s.layers[idx].kind, name, name, idx))
+    o.append("  }")
     o.append("  covfie::field<B> rb(covfie::make_parameter_pack(vp::rebuild<B>(f.backend())));")
     o.append("  vp::same_field<B>(R, f, rb, d, %d, %s, \"%s\", \"%s\");" % (s.depth(), "true" if s.serialisable() else "false", name, key))
     o.append("  ++R.states;")
@@ -95,11 +106,11 @@ def run(ctx):
     core.set_generic_cov(ctx, total,
         "generated stacks (quick: pairwise adjacency cover at depth <= 5 for all 16 (N,M); thorough: additionally EVERY stack to depth 4 for (N,M) in (1,2),(2,1),(2,2),(3,3),(4,4)) plus helper stacks of depth 1..10 (k distinct clamps over identity<int1>, over morton<size1,array>, alternating affine/clamp over constant); "
         "every layer gets a configuration value distinct from every other layer's; the field is constructed through make_parameter_pack_for (positional helper); for each layer i the configuration reported after i get_backend() steps is compared field by field with the i-th "
-        "argument; the field is rebuilt recursively as owning_data_t(get_configuration(), rebuild(get_backend())) and compared with the original at every in-domain coordinate of the alphabet and by dump bytes (serialisable stacks); "
+        "argument (and again, bit for bit, for a second assignment with extreme values in every blob: bounds beyond the extents beneath, reversed boxes, type extremes, -0.0, infinities, NaN - no lookups on those fields); the field is rebuilt recursively as owning_data_t(get_configuration(), rebuild(get_backend())) and compared with the original at every in-domain coordinate of the alphabet and by dump bytes (serialisable stacks); "
         "non-trivial = stacks with a non-empty coordinate domain; transitions = (stack, layer) configuration read-backs",
         {"stacks": len(stacks), "plan": [[list(nm), d] for nm, d in plan]})
     ctx.cov["configuration_readbacks"] = total.get("transitions", 0)
-    ctx.assumptions += ["one configuration assignment per stack (pairwise distinct values), not all values of every configuration type"]
+    ctx.assumptions += ["two configuration assignments per stack (pairwise distinct ordinary values; extreme / special values read back bit for bit), not all values of every configuration type"]
 
 
 def replay(ctx, rp):
